@@ -343,6 +343,41 @@ def gen_minor(rng):
     return [q, e, inc, rng.uniform(0, 360), rng.uniform(0, 360), T, T + dt]
 
 
+def gen_close_approach(rng):
+    """A minor body on an elliptic orbit that passes within 0.0003..0.002 AU
+    of the Earth (the library's own Sun vector reversed) at the query epoch:
+    the rarest part of the domain for a random orbit (about 1e-10 of the
+    draws), where the light-time is under a second but the displacement it
+    causes, v/c, is as large as anywhere."""
+    from pymeeus.Epoch import Epoch
+    from pymeeus.Sun import Sun
+
+    def unit():
+        while True:
+            v = (rng.gauss(0, 1), rng.gauss(0, 1), rng.gauss(0, 1))
+            n = sp.norm(v)
+            if n > 1e-3:
+                return tuple(c / n for c in v)
+    for _ in range(50):
+        t0 = jd_of_year(rng.uniform(1950, 2050))
+        e0 = tuple(-c for c in Sun.rectangular_coordinates_j2000(Epoch(t0)))
+        ea = tuple(-c for c in Sun.rectangular_coordinates_j2000(
+            Epoch(t0 + 0.25)))
+        eb = tuple(-c for c in Sun.rectangular_coordinates_j2000(
+            Epoch(t0 - 0.25)))
+        ve = tuple((a - b) / 0.5 for a, b in zip(ea, eb))
+        d = rng.uniform(0.0003, 0.0018)
+        r = tuple(a + d * u for a, u in zip(e0, unit()))
+        dv = rng.uniform(0.003, 0.009)
+        v = tuple(a + dv * u for a, u in zip(ve, unit()))
+        el = tb.elements_from_state(r, v)
+        if el is None or el[0] < 0.1:
+            continue
+        q, e, inc, node, argp, dt = el
+        return [q, e, inc, node, argp, t0 - dt, t0 + rng.uniform(-0.01, 0.01)]
+    return None
+
+
 def near_syzygy_epochs(planet, rng, n):
     """Epochs near conjunction/opposition: scan the library's elongation on a
     coarse grid and keep the local extremes."""
@@ -445,6 +480,12 @@ def run(mon, spec):
             p = gen_minor(rng)
             mon.begin("minor", p)
             case_minor(mon, *p)
+        for _ in range(max(12, spec["n"] // 40)):
+            p = gen_close_approach(rng)
+            if p is not None:
+                mon.begin("minor", p)
+                case_minor(mon, *p)
+                mon.cls("minor-within-0.002AU-of-the-Earth", tuple(p), p)
         ans = mon.contracts.get("near-parabolic-answered", 0)
         ref = mon.contracts.get("near-parabolic-refused", 0)
         if ref > ans:
